@@ -63,6 +63,8 @@ pub struct Interp<'a> {
     pub sinks: Vec<(String, String, SinkHandle)>,
     /// Crash injection: node id -> (global replica id or -1 for any, element index)
     pub crash: Option<(String, i64, i64)>,
+    /// Senders of the channel sources (node id, sender): fed by the job's feeder thread.
+    pub feeds: Vec<(String, flume::Sender<i64>)>,
 }
 
 fn probe(id: &str, on: bool) -> Probe {
@@ -216,6 +218,18 @@ impl<'a> Interp<'a> {
                     "script" => {
                         let scripts = parse_scripts_i64(&n["scripts"]);
                         let src = ScriptSource::new(scripts, repl(&n["repl"]), self.turns.clone());
+                        let s = self.env.stream(src);
+                        let s = match self.batch {
+                            Some(b) => s.batch_mode(b),
+                            None => s,
+                        };
+                        self.bs(s, &id)
+                    }
+                    "channel" => {
+                        let (tx, src) = renoir::operator::source::ChannelSource::new(
+                            n["cap"].as_u64().unwrap_or(1024) as usize,
+                        );
+                        self.feeds.push((id.clone(), tx));
                         let s = self.env.stream(src);
                         let s = match self.batch {
                             Some(b) => s.batch_mode(b),
